@@ -169,9 +169,10 @@ def sharing_sequences(arity: int) -> list[tuple[str, list]]:
         u2.append(P.t_iri("v.g"))
     out.append(("separator-less-iris-after-prefixed", [tuple(u1), tuple(u2), tuple(u1)]))
     # literals that differ only in the case of the language tag are different terms (components compared as strings)
+    # (different subjects: an rdflib store would otherwise merge the first two, its Literal equality ignores tag case)
     c1 = list(base("lc", arity)); c1[2] = ("lit", "chat", "en-US", None)
-    c2 = list(base("lc", arity)); c2[2] = ("lit", "chat", "en-us", None)
-    c3 = list(base("lc", arity)); c3[2] = ("lit", "Chat", "en-us", None)
+    c2 = list(base("ld", arity)); c2[2] = ("lit", "chat", "en-us", None)
+    c3 = list(base("le", arity)); c3[2] = ("lit", "Chat", "en-us", None)
     out.append(("literals-differing-in-case-only", [tuple(c1), tuple(c2), tuple(c3), tuple(c1)]))
     # a statement that needs more than 8 names: deep quoted triples in subject and object
     def deep(tag: str) -> tuple:
